@@ -179,6 +179,17 @@ func (m *memdbManager) Location() string {
 	return "in-memory"
 }
 
+// ldbBatch collects the Puts of one commit or rollback instead of writing them one by one.
+type ldbBatch struct {
+	*leveldb.DB
+	writes leveldb.Batch
+}
+
+func (b *ldbBatch) Put(key []byte, value []byte, _ *opt.WriteOptions) error {
+	b.writes.Put(key, value)
+	return nil
+}
+
 type rollbackCache struct {
 	frontier types.HashHeight
 	raw      db
@@ -366,13 +377,14 @@ func (m *ldbManager) Add(transaction Transaction) error {
 	frontierIdentifier := GetFrontierIdentifier(NewLevelDBSnapshotWrapper(snapshot).Subset(frontierByte))
 
 	if previous == frontierIdentifier {
-		if err := m.ldb.Put(common.JoinBytes(patchByte, common.Uint64ToBytes(identifier.Height)), patch.Dump(), nil); err != nil {
+		// all writes of a commit reach leveldb as one atomic batch
+		batch := &ldbBatch{DB: m.ldb}
+		batch.writes.Put(common.JoinBytes(patchByte, common.Uint64ToBytes(identifier.Height)), patch.Dump())
+		batch.writes.Put(common.JoinBytes(rollbackByte, common.Uint64ToBytes(identifier.Height)), rollbackPatch.Dump())
+		if err := ApplyPatch(enableDelete(&levelDBWrapper{db: batch}).Subset(frontierByte), patch); err != nil {
 			return err
 		}
-		if err := m.ldb.Put(common.JoinBytes(rollbackByte, common.Uint64ToBytes(identifier.Height)), rollbackPatch.Dump(), nil); err != nil {
-			return err
-		}
-		if err := ApplyPatch(NewLevelDBWrapper(m.ldb).Subset(frontierByte), patch); err != nil {
+		if err := m.ldb.Write(&batch.writes, nil); err != nil {
 			return err
 		}
 	}
@@ -382,13 +394,14 @@ func (m *ldbManager) Pop() error {
 	frontierIdentifier := GetFrontierIdentifier(m.Frontier())
 	rollbackPatch := m.getRollback(frontierIdentifier.Height)
 
-	if err := ApplyPatch(NewLevelDBWrapper(m.ldb).Subset(frontierByte), rollbackPatch); err != nil {
+	// all writes of a rollback reach leveldb as one atomic batch
+	batch := &ldbBatch{DB: m.ldb}
+	if err := ApplyPatch(enableDelete(&levelDBWrapper{db: batch}).Subset(frontierByte), rollbackPatch); err != nil {
 		return err
 	}
-	if err := m.ldb.Delete(common.JoinBytes(patchByte, common.Uint64ToBytes(frontierIdentifier.Height)), nil); err != nil {
-		return err
-	}
-	if err := m.ldb.Delete(common.JoinBytes(rollbackByte, common.Uint64ToBytes(frontierIdentifier.Height)), nil); err != nil {
+	batch.writes.Delete(common.JoinBytes(patchByte, common.Uint64ToBytes(frontierIdentifier.Height)))
+	batch.writes.Delete(common.JoinBytes(rollbackByte, common.Uint64ToBytes(frontierIdentifier.Height)))
+	if err := m.ldb.Write(&batch.writes, nil); err != nil {
 		return err
 	}
 
